@@ -116,6 +116,8 @@ class Ref:
 
   def getattr(self, n):
     p = self.param(n)
+    if n in self.extra:
+      return self.extra[n]
     if p is not None and p[1] in ('po', 'vp'):
       raise Raises('positional by name')
     if p is not None and p[1] == 'pk':
